@@ -18,7 +18,7 @@ for d in sorted(glob.glob("/verif/seeded/*/")):
     p = subprocess.run(f"git init -q . && git apply {d}patch.diff", shell=True, cwd=mr, capture_output=True, text=True)
     if p.returncode != 0:
         rows.append((mid, "PATCH-DOES-NOT-APPLY", "")); print(rows[-1], flush=True); continue
-    tier = "thorough" if "thorough" in " ".join(meta.get("caught_by", [])) else "quick"
+    tier = os.environ.get("TIER","quick")
     t0 = time.time()
     p = subprocess.run(f"./bin/simrun check {prop} --tier {tier}", shell=True, cwd="/verif", env=dict(env, VERIF_REPO=mr, VERIF_OUT=out),
                        capture_output=True, text=True, timeout=7200)
